@@ -93,6 +93,24 @@ Theorem C12_source_guards :
    derived_key_group_types = ["GroupType_GroupTypeMultiMember"]).
 Proof. exact (conj group_join_guarded (conj is_valid_skeleton identity_by_group_type)). Qed.
 
+(* through the service: the secret store keeps the FIRST group written for an identifier.  As the
+   CURRENT source has it (generated fact: MultiMemberGroupJoin checks through GroupJoin and stores
+   nothing before), a refused invitation leaves the registry alone and the genuine one joined later is
+   what the node finds under the group's key; storing before checking would keep the refused group *)
+Theorem C12_refused_invitation_leaves_no_group :
+  (forall a r k bad g a1 r1 a2 r2,
+     reg_find k r = None ->
+     service_join a r k bad = (a1, r1, false) -> service_join a1 r1 k g = (a2, r2, true) ->
+     reg_find k r2 = Some g) /\
+  (forall a r k bad g a1 r1 a2 r2 ok1 ok2,
+     reg_find k r = None ->
+     service_join_store_first a r k bad = (a1, r1, ok1) -> service_join_store_first a1 r1 k g = (a2, r2, ok2) ->
+     reg_find k r2 = Some bad) /\
+  (service_join_steps = [("accountGroup.MetadataStore().GroupJoin", true)] /\
+   service_create_steps = [("accountGroup.MetadataStore().GroupJoin", true); ("s.secretStore.PutGroup", true)])%string.
+Proof. exact (conj refused_then_genuine (conj store_first_keeps_the_refused_group service_checks_before_it_stores)). Qed.
+
+Print Assumptions C12_refused_invitation_leaves_no_group.
 Print Assumptions C12_source_guards.
 Print Assumptions C12_join_accepted_spec.
 Print Assumptions C12_valid_invitation_accepted.
